@@ -17,6 +17,12 @@ def C18_table : List Acc := GB.Generated.accesses.map (fun a => ⟨a.field, a.fn
 /-- The extractor type-checked every package without errors. -/
 theorem C18_lockset_loaded : GB.Generated.locksetLoadErrors = 0 := by decide
 
+/-- No package-level slice or map is handed out by reference (stored into an object, a variable or
+    returned without cloning): the per-object confinement rows are only sound when every object owns its
+    state. (Added after seeded change C18-m3 made every Resolver share the package-level
+    `reflectionMethods` slice as its `methodPriority`.) -/
+theorem C18_no_shared_globals : GB.Generated.globalAliases = [] := by decide
+
 /-- Lock discipline over the table regenerated from the sources in this run.
     Full statement wanted: `∀ a b ∈ table, conflict a b → protectedPair a b`; it FAILS on the current
     tree (see `C18_writtenStatus_unprotected`), so the proved statement excuses exactly the listed pairs. -/
